@@ -152,6 +152,20 @@ pub fn unit_specs(prop: &str, mode: &str, seed: u64, unit: u64, world_arg: Optio
             s.ops.truncate(ml as usize);
         }
     }
+    if LIGHT.load(Ordering::Relaxed) {
+        // interpreter tiers: no magnitude members
+        for s in v.iter_mut() {
+            s.ops.retain(|o| !matches!(o, Op::Bulk { .. } | Op::BulkDestroy { .. }));
+            for o in s.ops.iter_mut() {
+                if let Op::Cycle { n, .. } = o {
+                    *n = (*n).min(5);
+                }
+            }
+            for c in s.caps.iter_mut() {
+                *c = (*c).min(16);
+            }
+        }
+    }
     v
 }
 
